@@ -60,14 +60,14 @@ VARIABLES text,     \* the text first given to Encode (bytes)
 vars == <<text, enc, codes, status, hist>>
 
 Init == /\ enc \in Names
-        /\ text \in {s \in Strings(Probe(enc), MaxLen) : s # <<>>}
+        /\ text \in Strings(Probe(enc), MaxLen)             \* the empty text included: it uses no code and fits every alphabet
         /\ codes = <<>> /\ status = "fresh" /\ hist = <<>>
 
 EncodeOp == /\ status = "fresh"
             /\ codes' = Encode(enc, text) /\ status' = "ok" /\ hist' = <<<<"encode", enc>>>>
             /\ UNCHANGED <<text, enc>>
 
-MaxCode(c) == CHOOSE m \in {c[i] : i \in DOMAIN c} : \A i \in DOMAIN c : c[i] <= m
+MaxCode(c) == IF c = <<>> THEN -1 ELSE CHOOSE m \in {c[i] : i \in DOMAIN c} : \A i \in DOMAIN c : c[i] <= m
 Prefix(a, n) == SubSeq(a, 1, IF n <= Len(a) THEN n ELSE Len(a))
 
 \* as_encoded_array(encoded, B): keep the codes if the alphabets agree on every code in use
@@ -99,7 +99,7 @@ ReverseRows == /\ status = "ok" /\ Len(hist) < MaxOps
 
 \* Encoding is a function of its argument: after the caller assigns into an array returned earlier,
 \* encoding the same text again gives the same codes again.
-ScribbleThenEncodeAgain == /\ status = "ok" /\ Len(hist) = 1
+ScribbleThenEncodeAgain == /\ status = "ok" /\ Len(hist) = 1 /\ text # <<>>
                            /\ codes' = Encode(enc, text)
                            /\ hist' = Append(hist, <<"scribble-reencode", enc>>) /\ UNCHANGED <<text, enc, status>>
 
